@@ -133,6 +133,14 @@ V("c13h-last-listed-mode-as-largest", "C13", {"rule": "C13h", "contains": "_infe
 V("c13h-max-in-one-expression", "C13", "silent",
   (SIMPY, "    number_of_modes = None\n\n    for instruction in instructions:\n        modes = getattr(instruction, \"modes\", None)\n        if modes and (not number_of_modes or max(modes) >= number_of_modes):\n            number_of_modes = max(modes) + 1\n\n    return number_of_modes",
    "    largest = [max(instruction.modes) for instruction in instructions if getattr(instruction, \"modes\", None)]\n\n    return max(largest) + 1 if largest else None"))
+V("c07e-common-subexpression-loses-transpose", "C07", {"rule": "C07e", "contains": "_apply_linear_to_C_and_G"},
+  (GSTEPS, "    original_G = state._G[index]\n\n    state._G = connector.assign(", "    original_G = state._G[index]\n\n    antinormal_C = original_C + np.identity(len(modes))\n\n    state._G = connector.assign("),
+  (GSTEPS, "        + P @ (original_C.transpose() + np.identity(len(modes))) @ A.transpose()", "        + P @ antinormal_C @ A.transpose()"),
+  (GSTEPS, "        + A.conjugate()\n        @ (original_C.transpose() + np.identity(len(modes)))\n        @ A.transpose()", "        + A.conjugate() @ antinormal_C @ A.transpose()"))
+V("c07e-common-subexpression-kept-right", "C07", "silent",
+  (GSTEPS, "    original_G = state._G[index]\n\n    state._G = connector.assign(", "    original_G = state._G[index]\n\n    antinormal_C = original_C.transpose() + np.identity(len(modes))\n\n    state._G = connector.assign("),
+  (GSTEPS, "        + P @ (original_C.transpose() + np.identity(len(modes))) @ A.transpose()", "        + P @ antinormal_C @ A.transpose()"),
+  (GSTEPS, "        + A.conjugate()\n        @ (original_C.transpose() + np.identity(len(modes)))\n        @ A.transpose()", "        + A.conjugate() @ antinormal_C @ A.transpose()"))
 # ------------------------------------------------------------------------------------------- C20
 V("c20-sub-add", "C20", {"rule": "C20c", "contains": "Sub"}, (EXPR, "ast.Sub: op.sub", "ast.Sub: op.add"))
 V("c20-lt-le", "C20", {"rule": "C20c", "contains": "Lt"}, (EXPR, "ast.Lt: op.lt", "ast.Lt: op.le"))
